@@ -1,7 +1,7 @@
 #!/bin/sh
 # usage: tools/soak.sh <tier> <seed> [seed ...]  — run every check at the given seeds; print one line per (check, seed)
 tier="$1"; shift
-cd /verif
+cd "$(dirname "$0")/.."
 for s in "$@"; do
   for n in 01 02 03 04 05 06 07 08 09 10 11 12 13 14 15 16 17 18 19 20; do
     t0=$(date +%s)
